@@ -472,6 +472,11 @@ class Authorization(Endpoint):
                     if _req:
                         # One time usage
                         del context.par_db[_request_uri]
+                        _exp = _req.get("__par_expires_at")
+                        if _exp is not None:
+                            del _req["__par_expires_at"]
+                            if _exp < utc_time_sans_frac():
+                                raise ValueError("The pushed authorization request has expired")
                         return _req
                     else:
                         raise ValueError("Got a request_uri I can not resolve")
